@@ -61,6 +61,8 @@ type stubLog struct {
 	served  uint64 // size of the checkpoint handed out last
 	// tilesDown: tile requests are answered 503 (the checkpoint is still served)
 	tilesDown bool
+	// downCode: 503, or 404 (a log whose checkpoint becomes visible before its tiles do)
+	downCode int
 	// ext: extension lines of the published checkpoint (tiles-type logs only)
 	ext []string
 	badReqs []string
@@ -105,7 +107,7 @@ func (s *stubLogs) ServeHTTP(w http.ResponseWriter, r *http.Request) {
 			return
 		}
 		if l.tilesDown {
-			http.Error(w, "tiles unavailable", http.StatusServiceUnavailable)
+			http.Error(w, "tiles unavailable", l.downCode)
 			return
 		}
 		tile, err := tlog.ParseTilePath(p)
@@ -133,7 +135,7 @@ func (s *stubLogs) ServeHTTP(w http.ResponseWriter, r *http.Request) {
 			return
 		}
 		if l.tilesDown {
-			http.Error(w, "tiles unavailable", http.StatusServiceUnavailable)
+			http.Error(w, "tiles unavailable", l.downCode)
 			return
 		}
 		m := tilesPathRE.FindStringSubmatch(p)
@@ -365,10 +367,11 @@ func runOmni(c *OmniCase) (bool, []string, error) {
 				continue
 			}
 			// grow-outage: the new checkpoint is published while the log's tiles cannot be
-			// read (503) for three polls, i.e. at least one whole feed cycle fails after the
+			// read (503, 404 or 410 by the size) for three polls, i.e. at least one whole feed cycle fails after the
 			// checkpoint was fetched; then the tiles come back and the log does NOT grow again
 			outage := st.Kind == "grow-outage" && old > 0
 			l.tilesDown = outage
+			l.downCode = []int{http.StatusServiceUnavailable, http.StatusNotFound, http.StatusGone}[int(st.Size)%3]
 			base := l.cpGets
 			l.size = st.Size
 			stubs.mu.Unlock()
